@@ -15,8 +15,26 @@ sorted (key, row number) pairs, which is the order dictable.sort computes from t
                      x group lie in different y groups - from the cmp laws and the component-wise comparison of key tuples) are obligations of their own.
                      Assumed (their bodies are bounded only): type(self)(xys, x + (y_,)) is the table of the group keys; len(rs[[y_]].listby(y_)) is the
                      number of y groups.
-Bounded only (rac/C11.py): the constructors `type(self)(xs, by)` / `type(self)(res, labels)`, update, concat in unlist/ungroup, the column labels and final
-assembly of pivot, unpivot.
+  dictable.unlist    in two steps (section unlist): the body of unlist with concat as a call (no row: the table itself; otherwise cls.concat of the list of the
+                     rows, in order), and dictable.concat + as_list executed from their source on that list of R records for symbolic R.  Callees by contract:
+                     __iter__, the constructor from one record (C01 constructor.record.*: list cells of one length, scalars / None / one-element lists
+                     repeated; ValueError for list cells of different lengths), dict_concat (C01), the constructor from equally long columns (C01);
+                     axiom: sum(lists, []) is concatenation.  Result: all the columns, NR[0] + ... + NR[R-1] rows (NR[r] = the length of the list cells of
+                     row r, 1 when it has none), the block of row r listing its list cells item by item and repeating its other cells; ValueError iff a row
+                     has two list cells of different lengths other than 1.  The prefix-sum law is an induction lemma (base + step obligations).
+                     What stays an argument: with the groups of listby as cells (proved: one entry per row of the group, in listing order) this makes
+                     unlist(listby(d)) the rows of d group by group in key order - the stable sort; "every position below the total belongs to exactly one
+                     block" (the converse of the block clause) is not stated.
+  dictable.ungroup   `self.concat([row.pop(grp)(**row.do(lambda v: [v])) for row in self])`: the same concat assembly over one table per row, but that table
+                     is the row's sub-table called with the other cells as one-element lists (dictable.__call__ -> derived columns, Dict.do, dict.pop):
+                     these three are not under contract, so ungroup stays bounded only (rac/C11.py).  What it returns, in terms of the proved pieces: the
+                     concat assembly of unlist (same code, ManyTables) over per-row tables that are assumed to be the row's sub-table with every other
+                     cell of the row repeated once per sub-table row; with groupby's cells (proved) that is the rows of d group by group in key order.
+The constructors `type(self)(xs, by)` of listby / groupby and `type(self)(xys, x + (y_,))` of pivot are the rows + headers form proved in C01
+(constructor.rows.*: names given as a list or as dict keys; here they are a tuple and the rows a tuple of key tuples - same statements of
+_data_columns_as_dict, no list-specific test on the way, but not one of the two shapes run); the link between the opaque group keys of the `_listby` contract
+and their components is not modelled, so these calls remain assumed / bounded as before.
+Bounded only (rac/C11.py): ungroup, `rtn.update(...)` / `rtn[grp] = ...` of listby / groupby, the column labels and final assembly of pivot, unpivot.
 """
 import ast
 import z3
@@ -29,6 +47,13 @@ from pyvc.th_lists import Lists, Val, NONEV, VAL, INT, LIST, fresh_list, V, as_l
 from pyvc.th_tables import Tables, Key, KEY, fresh_table, wf, column
 from pyvc.sv import SV, I, B, T, fresh_name
 from contracts.C02 import listby_obligations
+from contracts.C01 import Dictable, ground_section
+from pyvc.th_lists import NONEV
+from pyvc.th_tables import nrows, same_table, key_of, no_columns
+from pyvc.th_tables2 import Rows, Init, VLEN
+from pyvc.th_tables3 import RowsHeaders, ManyTables, OFFN, offsets_lemma, offsets_def, flatten_instance, cell_len, cell_item, cell_axioms, ISL
+from pyvc.th_tables2 import list_value_axioms
+from z3 import Exists
 
 PROP = 'C11'
 
@@ -492,6 +517,152 @@ def xyz_obligations(ctx, m):
     ctx.trust('engine:obligations of the pivot section are discharged on their grounding (universal hypotheses replaced by instances over the index terms of the query)')
 
 
+# ====================================================================================================== unlist: concat of the rows
+def _battery(kind):
+    return lambda model: dict(kind=kind)
+
+
+class ConcatStub:
+    """inside unlist: `self.concat(xs)` is the call whose body the section proves separately; here it only has to be made with the list of the rows"""
+
+    def __init__(self):
+        self.calls = []
+
+    def method(self, ex, st, e, recv, mname, args, kwargs):
+        if recv.kind == 'table' and mname == 'concat' and len(args) == 1 and not kwargs:
+            ex.use('callee contract:cls.concat(list of the rows of the table) (proved in C11 unlist.concat.*)')
+            res = fresh_table('concatenated')
+            self.calls.append((recv, args[0], res, list(st.pc) + list(st.guards)))
+            return res
+        return NotImplemented
+
+
+def unlist_obligations(ctx, m):
+    """dictable.unlist - `self.concat([row for row in self]) if len(self) else self` - for a rectangular table with R rows whose cells are None, python lists
+    or scalars, in two steps over the real source:
+      unlist.dispatch   the body of unlist with `concat` as a call: a table without rows is returned as it is, otherwise the result is cls.concat of the list of
+                        the rows, in order (the comprehension is executed: one element per row, the j-th being row j);
+      unlist.concat     dictable.concat and as_list executed from their source on that list of rows.  Callees by contract: __iter__ and __len__ (C01), the
+                        constructor from one record (C01 constructor.record.*: the broadcast), dict_concat (C01), the constructor from a dict of equally long
+                        columns (C01 constructor.columns.*); axiom: sum(lists, []) is concatenation.
+    With NR[r] the row count of the table made of row r (the length of a list cell of that row that is not of length 1, else 1) and
+    rows_before(r) = NR[0] + ... + NR[r-1], the concatenation has all the columns and rows_before(R) rows, and the block of row r - positions rows_before(r) ..
+    rows_before(r) + NR[r] - 1 - holds in a column whose cell is a list of length NR[r] the items of that list in order, in any other column the cell (the
+    item of a one-element list) repeated; ValueError iff some row has two list cells whose lengths differ and are both other than 1.  The prefix-sum
+    law used (items_before == rows_before) is proved by induction (offsets lemma)."""
+    ma = ctx.mod('_as_list')
+    fdef, cdef = m.func('dictable.unlist'), m.func('dictable.concat')
+    comps = [x for x in walk_no_defs(fdef) if isinstance(x, ast.ListComp)]
+    if len(comps) != 1:
+        raise SelectorError('unlist: expected one comprehension (the list of the rows)')
+    comp = comps[0]
+    n = Int('N')
+    t = fresh_table('self')
+    R = nrows(t, n)
+    pre = [wf(t, n)]
+    n0 = len(ctx.obligations)
+    c, c2, C0, W = Const('c!ul', Key), Const('c2!ul', Key), Const('C0!ul', Key), Const('W!ul', Key)
+    r, i, j, R0, I0 = Ints('r!ul i!ul j!ul R0!ul I0!ul')
+    cell = lambda rr, cc: Select(Select(t.carr, cc), rr)
+
+    # ---------------------------------------------------------------- unlist itself, concat as a call
+    stub = ConcatStub()
+    rows0 = Rows(known=[(t, n)])
+    ex0 = Exec(m, [stub, ManyTables(rows0), rows0, Dictable(m), Tables(), Lists(), TypePreds(extra={'is_arr': ()})],
+               inline={'dictable.unlist': (m, fdef), 'dictable.__len__': (m, m.func('dictable.__len__'))}, name='unlist.dispatch')
+    st0 = State(env={'self': t})
+    st0.pc += pre
+    outs0 = ex0.run_function(st0, 'dictable.unlist', [t], {})
+    ctx.absorb(ex0)
+    ctx.record_function(m, 'dictable.unlist', fdef, ex0.stmts_executed)
+    if len(stub.calls) != 1:
+        raise OutOfSubset('unlist: expected one call of concat')
+    recv, arg, res, guard = stub.calls[0]
+    if arg.kind != 'lazylist':
+        raise OutOfSubset('unlist: concat is not called with a list')
+    nret0 = 0
+    for out in outs0:
+        hy = ex0.facts + out.st.pc
+        if out.kind != 'return' or out.val.kind != 'table':
+            ctx.post('unlist.dispatch.never_raises_by_itself.%s' % out.val, hy, BoolVal(False), kind='safety')
+            continue
+        nret0 += 1
+        o = out.val
+        ctx.post('unlist.dispatch.a_table_without_rows_is_returned_as_it_is', hy + [R == 0], same_table(o, t))
+        ctx.post('unlist.dispatch.otherwise_the_result_is_the_concatenation', hy + [R >= 1], same_table(o, res))
+    s2 = State(env={'self': t}); s2.pc += pre
+    row = arg.at(s2, j)
+    if row.kind != 'rowmap':
+        raise OutOfSubset('unlist: concat is not called with a list of records')
+    ctx.post('unlist.dispatch.concat_is_called_on_the_receiver_with_one_record_per_row', ex0.facts + pre, And(same_table(recv, t), arg.n == R))
+    ctx.post('unlist.dispatch.the_jth_record_is_row_j', ex0.facts + s2.pc + [0 <= j, j < R],
+             And(row.dom == t.dom, ForAll([c], Implies(t.dom[c], Select(row.vals, c) == cell(j, c)))))
+    if nret0 == 0:
+        raise OutOfSubset('unlist has no returning path')
+
+    # ---------------------------------------------------------------- concat on the list of the rows
+    inline = {'dictable.concat': (m, cdef), 'dictable.__len__': (m, m.func('dictable.__len__')), 'as_list': (ma, ma.func('as_list')), 'is_rng': (ma, ma.func('is_rng'))}
+    rows = Rows(known=[(t, n)])
+    many = ManyTables(rows)
+    ex = Exec(m, [many, RowsHeaders(), Init(), rows, Dictable(m), Tables(), Lists(), TypePreds(extra={'is_arr': ()})], inline=inline, name='unlist.concat')
+    st = State(env={'self': t})
+    st.pc += pre
+    records = ex.eval(st, comp)                   # the argument of concat as unlist builds it: the real comprehension, rows with their index kept
+    if records.kind != 'lazylist' or st.pending:
+        raise OutOfSubset('unlist: the list of rows is not a plain comprehension')
+    outs = ex.run_function(st, 'dictable.concat', [SV('cls', None, name='dictable'), records], {})
+    ctx.absorb(ex)
+    ctx.record_function(m, 'dictable.concat', cdef, ex.stmts_executed, excluded=['operands that are tables already (d1 + d2: C01 __add__.*)'])
+    p = many.per_row
+    if p is None:
+        raise OutOfSubset('concat no longer builds a table from every record')
+    NR, clash = p['nr'], p['clash']
+    nret = nraise = 0
+    for out in outs:
+        hy = ex.facts + out.st.pc
+        if out.kind != 'return':
+            nraise += 1
+            ctx.post('unlist.concat.raises_only_ValueError_and_only_for_a_row_with_list_cells_of_different_lengths', hy,
+                     And(BoolVal(out.val == 'ValueError'), Exists([r], And(0 <= r, r < R, clash(r)))), kind='safety')
+            continue
+        nret += 1
+        o = out.val
+        if o.kind != 'table':
+            raise OutOfSubset('concat does not return a table')
+        # the path through `dict_concat` is proved from its path condition (it carries the stepping stones about the concatenation: its columns, its cells,
+        # the prefix sums) and the few axioms needed, not from every contract fact at once
+        base = out.st.pc + [p['fact'], OFFN(NR, 0) == 0, OFFN(NR, 1) == OFFN(NR, 0) + NR[0]]          # ground instances of the prefix-sum definition (one row)
+        ctx.post('unlist.concat.returns_only_when_no_row_has_list_cells_of_different_lengths', hy, ForAll([r], Implies(And(0 <= r, r < R), Not(clash(r)))))
+        ctx.post('unlist.concat.row_count_of_a_row_is_the_length_of_its_list_cells', base + cell_axioms(),
+                 ForAll([r, c], Implies(And(0 <= r, r < R, t.dom[c]), And(NR[r] >= 0, Implies(cell_len(cell(r, c)) != 1, NR[r] == cell_len(cell(r, c))),
+                                                                          Implies(ForAll([c2], Implies(t.dom[c2], cell_len(cell(r, c2)) == 1)), NR[r] == 1)))))
+        ctx.post('unlist.concat.keeps_all_columns', base + [R >= 1], ForAll([c], o.dom[c] == t.dom[c]))
+        # for an arbitrary column C0; W names some column of a table that has one (a choice constant); ground instances of the prefix-sum stepping stone
+        off = getattr(many, 'offsets_at', None)
+        ground_off = [off(W, R), off(C0, R)] if off is not None else []
+        ctx.post('unlist.concat.rectangular_with_the_row_counts_added_up', out.st.pc + [p['at'](IntVal(0))] + base[-2:] + ground_off + [R >= 1, Implies(Not(no_columns(t)), t.dom[W])],
+                 And(OFFN(NR, R) >= 0, Implies(o.dom[C0], o.clen[C0] == OFFN(NR, R))))
+        # stated for an arbitrary column C0, row R0 and position I0 (constants no hypothesis mentions), so that the one instance of the flatten axiom the
+        # proof needs can be handed over (the solver does not find it by matching: the position is a sum)
+        cat = getattr(many, 'concatenated', None)
+        inst = [flatten_instance(Select(cat.carr, C0), Select(cat.clen, C0), R0, I0)] if cat is not None else []
+        ctx.post('unlist.concat.block_of_row_r_lists_its_list_cells_and_repeats_the_others', base + cell_axioms() + list_value_axioms() + inst + [R >= 1],
+                 Implies(And(t.dom[C0], 0 <= R0, R0 < R, 0 <= I0, I0 < NR[R0]),
+                         o.carr[C0][OFFN(NR, R0) + I0] == If(cell_len(cell(R0, C0)) == NR[R0], cell_item(cell(R0, C0), I0), cell_item(cell(R0, C0), IntVal(0)))))
+    offsets_lemma(ctx, 'unlist')
+    ground_section(ctx, n0, rounds=3, lazy=True)
+    for ob in ctx.obligations[n0:]:
+        if ob.kind != 'syntactic':
+            ob.meta['replay'] = _battery('unlist')
+            ob.meta['replay_without_model'] = True
+            ob.meta['replay_module'] = 'rac.C11_ded'
+    if nret == 0 or nraise == 0:
+        raise OutOfSubset('concat of the rows: expected a returning and a raising path')
+    ka, kb = key_of('a'), key_of('b')
+    va, vb = cell(0, ka), cell(0, kb)
+    ctx.cover('unlist.pre_with_a_list_cell_and_a_scalar', pre + cell_axioms() + [n == 2, t.dom[ka], t.dom[kb], ISL(va), va != NONEV, VLEN(va) == 3, Not(ISL(vb)), vb != NONEV])
+
+
 def build(ctx):
     m = ctx.mod('_dictable')
     ctx.trust('cmp laws (range, antisymmetry, transitivity) are hypotheses here: they are the subject of property C07')
@@ -551,6 +722,7 @@ def build(ctx):
     ctx.guarded('xyz', lambda: xyz_obligations(ctx, m))
     ctx.guarded('listby', lambda: cells('listby', True))
     ctx.guarded('groupby', lambda: cells('groupby', False))
+    ctx.guarded('unlist', lambda: unlist_obligations(ctx, m))
     ctx.trust('that listby / groupby apply the cell comprehension to the ids returned by _listby is checked on the AST (iteration source), not symbolically')
 
     # ------------------------------------------------------------------ frame: operations that return a new object never alter their operands
